@@ -44,6 +44,16 @@ CLAIMS = {
   'design_ref': 'DESIGN.md section 4 / C19',
   'note': 'Trusted: lazy-initialisation model of the dictionaries, uniqueness of the user object per name (list of users abstracted to a set of names, with a no-duplicate obligation), fold table in contracts/C19.py. JoinRoom.Response and RoomTickers.Response loops only as BOUNDED stand-ins (list length <= 2, not counted as proved); RoomList and PrivilegedUsers (loops over the whole replica) are not under contract. One defect found and fixed (07783d7).',
  },
+ 'C13': {
+  'text': 'Proof per handler over all names, levels, roots, speeds and flags (symbolic), on enumerated tree shapes: _get_advertised_branch_values equals the spec function adv(parent, me); a peer becomes parent only if there is none, it announced level and root and it is not a child, otherwise a complete candidate is disconnected; a child is admitted iff acceptance is on, the count is below the maximum and the peer was not proposed as potential parent, with check and append in one atomic section; after every handler that changes the parent or its values (set, announced new level/root, lost, session start) the last BranchLevel/BranchRoot/ToggleParentSearch sent to the server and the last level/root sent to each child equal adv evaluated after the change; CLOSED removes the peer everywhere; the child limit follows the speed/ratio table; INV-tree (parent not a child, registered peers, no duplicates) holds at every exit. Sequence properties follow by induction over handlers; the suite has one scenario per handler.',
+  'design_ref': 'DESIGN.md section 4 / C13',
+  'note': 'Trusted: hand-over point sent[c], cooperative scheduling. Obligations quantifying over the children list are BOUNDED stand-ins (0..2 children, labelled [bounded], not counted as proved). Not decided: liveness of connections at all times. Two defects found and fixed (9d17886, 7d452c7).',
+ },
+ 'C14': {
+  'text': 'Proof per carrier handler over all user/ticket/query values: nothing is handed to any connection that is not a child (parent, candidate, server), searches of the logged-in user are neither forwarded (3 carriers) nor answered (4 handlers), a legacy carrier with another code is ignored, the shares are queried once for (ticket, asker, query) of the incoming request, and _query_shares_and_reply creates exactly one PeerSearchReply task to the asker with the same ticket, the own username and the visible/locked lists iff there is at least one match (none for blocked users); queue_messages creates one send task per message.',
+  'design_ref': 'DESIGN.md section 4 / C14',
+  'note': 'Trusted: hand-over point sent[c]; SharesManager.query by contract (C07/C08). "each child exactly once with the same user/ticket/query" is a BOUNDED stand-in (0..3 children, labelled [bounded], not counted as proved). One defect found and fixed (3c33423).',
+ },
 }
 
 NA_DEFAULT = 'check not built yet (work in progress; see DESIGN.md section 4 for the planned contracts)'
